@@ -28,8 +28,15 @@ def decode_none(d):
 
 
 def field_kinds():
+    """Constructor fields and their conversion kinds, from the translator; `None` when the
+    constructor is outside the translator's whitelist (the tie of C18 is then broken — reported by
+    the proof side — and the checks go on with the oracle on the implementation alone)."""
     from .translate import checkgen
-    return checkgen.init_fields()
+    from .translate.pyast import TranslationError
+    try:
+        return checkgen.init_fields()
+    except TranslationError:
+        return None
 
 
 def _shape(v):
